@@ -203,6 +203,14 @@ func (f *c12Full) block(step time.Duration, pre, txs, env []*c12Act) (int64, tim
 			ftxs = append(ftxs, FATx{Signers: []*FAAccount{u}, Msgs: []sdk.Msg{msg}})
 		case "govvote":
 			ftxs = append(ftxs, FATx{Signers: []*FAAccount{acc}, Msgs: []sdk.Msg{govv1.NewMsgVote(acc.Addr, uint64(a.n), govv1.OptionYes, "")}})
+		case "undelegate": // the operator withdraws all but 5 ugrain of its self delegation
+			v, err := app.StakingKeeper.GetValidator(fa.CtxCached(), sdk.ValAddress(a.addr))
+			if err != nil {
+				f.t.Fatal(err)
+			}
+			ftxs = append(ftxs, FATx{Signers: []*FAAccount{acc}, Msgs: []sdk.Msg{
+				stakingtypes.NewMsgUndelegate(acc.Addr.String(), sdk.ValAddress(a.addr).String(), sdk.NewCoin(FABondDenom, v.Tokens.SubRaw(5))),
+			}})
 		case "delegate":
 			u := fa.User(1)
 			ftxs = append(ftxs, FATx{Signers: []*FAAccount{u}, Msgs: []sdk.Msg{
@@ -224,7 +232,7 @@ func (f *c12Full) block(step time.Duration, pre, txs, env []*c12Act) (int64, tim
 		if b.Txs[i].OK() {
 			a.res = "ok"
 		}
-		if a.kind == "govvote" && !b.Txs[i].OK() {
+		if (a.kind == "govvote" || a.kind == "undelegate") && !b.Txs[i].OK() {
 			f.t.Fatalf("c12 full: %s failed: %s", a.kind, b.Txs[i].Log)
 		}
 		if a.kind == "govsubmit" {
@@ -247,33 +255,40 @@ func (f *c12Full) block(step time.Duration, pre, txs, env []*c12Act) (int64, tim
 	return fa.Height(), fa.Time(), f.lastSnap
 }
 
+// c12AddrFilter: about half of the operator addresses contain the old separator 0x2c
+func c12AddrFilter(variant int) func(i int, addr []byte) bool {
+	return func(i int, addr []byte) bool {
+		has := bytes.IndexByte(addr, 0x2c) >= 0
+		switch (i + variant) % 4 {
+		case 0:
+			return has
+		case 2:
+			return addr[0] == 0x2c || addr[19] == 0x2c
+		default:
+			return !has
+		}
+	}
+}
+
 func c12StartFull(t *testing.T, r *Rec, seed int64) *c12Runner {
 	n := 4 + r.Rng.Intn(3)
 	pw := c12Powers(r, n, 1)
+	// MaxValidators stays at the default: lowering it in genesis below the number of genesis
+	// validators leaves the surplus ones with status Bonded outside the validator set (staking
+	// only unbonds members of the LAST set), a state a running chain cannot reach.
+	return c12StartFullWith(t, r, seed, pw, 0, r.Rng.Intn(2))
+}
+
+func c12StartFullWith(t *testing.T, r *Rec, seed int64, pw []int64, maxVals uint32, variant int) *c12Runner {
+	n := len(pw)
 	stakes := make([]sdkmath.Int, n)
 	for i := range stakes {
 		stakes[i] = sdkmath.NewInt(pw[i]).MulRaw(1_000_000).AddRaw(int64(r.Rng.Intn(2)) * int64(r.Rng.Intn(1_000_000)))
 	}
-	maxVals := uint32(0)
-	if r.Rng.Intn(3) == 0 {
-		maxVals = uint32(n - 1 - r.Rng.Intn(2))
-	}
-	variant := r.Rng.Intn(2)
 	fa := NewFullApp(t, FullAppOpts{
 		Seed: seed, NumValidators: n, NumUsers: 2, ValidatorStake: stakes,
-		UserBalance: sdk.NewCoins(sdk.NewCoin(FABondDenom, sdkmath.NewInt(1<<52).MulRaw(1_000_000))),
-		// about half of the operator addresses contain the old separator 0x2c
-		ValAddrFilter: func(i int, addr []byte) bool {
-			has := bytes.IndexByte(addr, 0x2c) >= 0
-			switch (i + variant) % 4 {
-			case 0:
-				return has
-			case 2:
-				return addr[0] == 0x2c || addr[19] == 0x2c
-			default:
-				return !has
-			}
-		},
+		UserBalance:   sdk.NewCoins(sdk.NewCoin(FABondDenom, sdkmath.NewInt(1<<52).MulRaw(1_000_000))),
+		ValAddrFilter: c12AddrFilter(variant),
 		MutateGenesis: func(a *palomaapp.App, gs map[string]json.RawMessage) {
 			var gg govv1.GenesisState
 			a.AppCodec().MustUnmarshalJSON(gs[govtypes.ModuleName], &gg)
@@ -405,6 +420,41 @@ func c12RealTTL(g *c12Gen) {
 	w.r.Stat("gen.real_ttl")
 }
 
+// c12LastValidatorCase: the full-application reproduction of the `last-validator-global` deviation.
+// Five validators. The one that is LAST in store order undelegates all but 5 ugrain of its self
+// delegation: consensus power 0, so staking moves it to unbonding — unjailed. Only the large
+// validator keeps its relayer alive. The sweep at height 60 jails the three small bonded
+// validators; then exactly one validator is active and `Jail` refuses the unbonding one as well
+// (and again at every later sweep).
+func c12LastValidatorCase(t *testing.T, r *Rec, seed int64) *c12Runner {
+	const n = 5
+	filter := c12AddrFilter(0)
+	last, whale := 0, 0
+	var addrs [][]byte
+	for i := 0; i < n; i++ {
+		i := i
+		addrs = append(addrs, FAFindKey(seed, "val", i, func(a []byte) bool { return filter(i, a) }).PubKey().Address())
+		if bytes.Compare(addrs[i], addrs[last]) > 0 {
+			last = i
+		}
+	}
+	if last == 0 {
+		whale = 1
+	}
+	pw := []int64{10, 10, 10, 10, 10}
+	pw[whale] = 1000
+	w := c12StartFullWith(t, r, seed, pw, 0, 0)
+	w.runBlock(2*time.Second, nil, []*c12Act{
+		{kind: "keepalive", addr: addrs[whale], ver: FAPigeonVersion},
+		{kind: "undelegate", addr: addrs[last]},
+	}, nil)
+	for w.be.lastHeight() < 72 {
+		w.runBlock(2*time.Second, nil, nil, nil)
+	}
+	w.r.Stat("gen.last_validator_full")
+	return w
+}
+
 func c12RunFull(t *testing.T, r *Rec, n int) {
 	var w *c12Runner
 	var g *c12Gen
@@ -416,6 +466,10 @@ func c12RunFull(t *testing.T, r *Rec, n int) {
 		w.nontriv = map[string]bool{}
 		start := len(w.ops)
 		switch {
+		case i == 2:
+			w = c12LastValidatorCase(t, r, r.Seed*1000+500)
+			g = &c12Gen{w: w, full: true, txKinds: c12FullTxs}
+			start = 0
 		case i == 1:
 			c12RealTTL(g)
 		case i%7 == 3:
